@@ -136,69 +136,7 @@ func runC07(c *eng.Ctx) {
 
 	// ---- R07.4 candidate
 	c.Rule("R07.4", "K5")
-	if fn := c.Fn("server.(*metadataAPI).electNewPartitionLeader"); fn != nil {
-		sel := eng.CallsIn(fn, "server.metadataAPI.selectPartitionLeader")
-		if len(sel) != 1 {
-			c.Unresolved("selectPartitionLeader call in electNewPartitionLeader")
-		} else {
-			sc := sel[0].(*ssa.Call)
-			// ChangeLeaderOp.Leader is the selection result
-			okStore := false
-			eng.Instrs(fn, func(in ssa.Instruction) {
-				if st, ok := in.(*ssa.Store); ok {
-					if fa, ok := st.Addr.(*ssa.FieldAddr); ok && eng.FieldNameOf(fa) == "Leader" && strings.HasSuffix(fa.X.Type().String(), "ChangeLeaderOp") {
-						okStore = eng.Strip(st.Val) == sc || phiOnly(st.Val, sc)
-					}
-				}
-			})
-			c.Check(okStore, "proposed leader = selected candidate", c.Pos(sc), "ChangeLeaderOp.Leader is the result of selectPartitionLeader(candidates)", "the leader proposed through Raft is not the result of selectPartitionLeader")
-			// candidates: elements appended come from ranging GetISR(), on the candidate != leader edge
-			cands := sc.Call.Args[1]
-			isr := eng.CallsIn(fn, "server.partition.GetISR")
-			okSrc := len(isr) == 1
-			nApp := 0
-			eng.Instrs(fn, func(in ssa.Instruction) {
-				call, ok := in.(*ssa.Call)
-				if !ok {
-					return
-				}
-				b, ok := call.Call.Value.(*ssa.Builtin)
-				if !ok || b.Name() != "append" {
-					return
-				}
-				el := variadicElems(call.Call.Args[1])
-				if len(el) != 1 {
-					return
-				}
-				nApp++
-				ia := indexOfLoad(el[0])
-				if ia == nil || len(isr) != 1 || ia.X != isr[0].(ssa.Value) {
-					okSrc = false
-					return
-				}
-				ne := eng.CmpEdges(fn, eng.Same(el[0]), eng.Call(0, "server.partition.GetLeader"), eng.NE)
-				g, _ := eng.GuardedBy(fn, call, ne)
-				if !g || len(ne) == 0 {
-					okSrc = false
-				}
-			})
-			_ = cands
-			c.Check(okSrc && nApp == 1, "candidates = ISR minus the current leader", c.Pos(sc), "only elements of partition.GetISR() that differ from the current leader are appended", "the candidate list is not built from the in-sync set with the current leader excluded")
-			// empty candidate set refused
-			nonEmpty := eng.CmpEdges(fn, eng.Len(nil), eng.IntConst(0), eng.NE)
-			nonEmpty = append(nonEmpty, eng.CmpEdges(fn, eng.Len(nil), eng.IntConst(0), eng.GT)...)
-			g, w := eng.GuardedBy(fn, sc, nonEmpty)
-			c.Check(g, "no election without candidates", c.Pos(sc), "selectPartitionLeader is reached only with len(candidates) != 0", "selectPartitionLeader can be called with an empty candidate list (path "+w.String()+")")
-		}
-	}
-	if fn := c.Fn("server.(*metadataAPI).selectPartitionLeader"); fn != nil {
-		ok := false
-		for _, r := range eng.Returns(fn) {
-			ia := indexOfLoad(r.Results[0])
-			ok = ia != nil && eng.Param("replicas")(ia.X)
-		}
-		c.Check(ok, "selection returns an element of its argument", p.Pos(fn.Pos()), "returns replicas[i]", "selectPartitionLeader does not return an element of the candidate list")
-	}
+	ruleCandidate(c)
 	c.Floor(4)
 
 	// ---- R07.5 epochs only grow
@@ -311,4 +249,72 @@ func phiOnly(v ssa.Value, want ssa.Value) bool {
 		}
 	}
 	return true
+}
+
+// ruleCandidate is R07.4 (shared with C02): the elected leader is an element of the ISR other than the current leader.
+func ruleCandidate(c *eng.Ctx) {
+	p := c.P
+	if fn := c.Fn("server.(*metadataAPI).electNewPartitionLeader"); fn != nil {
+		sel := eng.CallsIn(fn, "server.metadataAPI.selectPartitionLeader")
+		if len(sel) != 1 {
+			c.Unresolved("selectPartitionLeader call in electNewPartitionLeader")
+		} else {
+			sc := sel[0].(*ssa.Call)
+			// ChangeLeaderOp.Leader is the selection result
+			okStore := false
+			eng.Instrs(fn, func(in ssa.Instruction) {
+				if st, ok := in.(*ssa.Store); ok {
+					if fa, ok := st.Addr.(*ssa.FieldAddr); ok && eng.FieldNameOf(fa) == "Leader" && strings.HasSuffix(fa.X.Type().String(), "ChangeLeaderOp") {
+						okStore = eng.Strip(st.Val) == sc || phiOnly(st.Val, sc)
+					}
+				}
+			})
+			c.Check(okStore, "proposed leader = selected candidate", c.Pos(sc), "ChangeLeaderOp.Leader is the result of selectPartitionLeader(candidates)", "the leader proposed through Raft is not the result of selectPartitionLeader")
+			// candidates: elements appended come from ranging GetISR(), on the candidate != leader edge
+			cands := sc.Call.Args[1]
+			isr := eng.CallsIn(fn, "server.partition.GetISR")
+			okSrc := len(isr) == 1
+			nApp := 0
+			eng.Instrs(fn, func(in ssa.Instruction) {
+				call, ok := in.(*ssa.Call)
+				if !ok {
+					return
+				}
+				b, ok := call.Call.Value.(*ssa.Builtin)
+				if !ok || b.Name() != "append" {
+					return
+				}
+				el := variadicElems(call.Call.Args[1])
+				if len(el) != 1 {
+					return
+				}
+				nApp++
+				ia := indexOfLoad(el[0])
+				if ia == nil || len(isr) != 1 || ia.X != isr[0].(ssa.Value) {
+					okSrc = false
+					return
+				}
+				ne := eng.CmpEdges(fn, eng.Same(el[0]), eng.Call(0, "server.partition.GetLeader"), eng.NE)
+				g, _ := eng.GuardedBy(fn, call, ne)
+				if !g || len(ne) == 0 {
+					okSrc = false
+				}
+			})
+			_ = cands
+			c.Check(okSrc && nApp == 1, "candidates = ISR minus the current leader", c.Pos(sc), "only elements of partition.GetISR() that differ from the current leader are appended", "the candidate list is not built from the in-sync set with the current leader excluded")
+			// empty candidate set refused
+			nonEmpty := eng.CmpEdges(fn, eng.Len(nil), eng.IntConst(0), eng.NE)
+			nonEmpty = append(nonEmpty, eng.CmpEdges(fn, eng.Len(nil), eng.IntConst(0), eng.GT)...)
+			g, w := eng.GuardedBy(fn, sc, nonEmpty)
+			c.Check(g, "no election without candidates", c.Pos(sc), "selectPartitionLeader is reached only with len(candidates) != 0", "selectPartitionLeader can be called with an empty candidate list (path "+w.String()+")")
+		}
+	}
+	if fn := c.Fn("server.(*metadataAPI).selectPartitionLeader"); fn != nil {
+		ok := false
+		for _, r := range eng.Returns(fn) {
+			ia := indexOfLoad(r.Results[0])
+			ok = ia != nil && eng.Param("replicas")(ia.X)
+		}
+		c.Check(ok, "selection returns an element of its argument", p.Pos(fn.Pos()), "returns replicas[i]", "selectPartitionLeader does not return an element of the candidate list")
+	}
 }
